@@ -11,6 +11,8 @@
  *   FCV_KILL   K:before | K:after    _exit(137) just before / after the K-th relevant mutating call
  *   FCV_PAUSE  CLASS:K:FIFO_OUT:FIFO_IN   at the K-th relevant call of CLASS (R|M|O = open for read)
  *              write one byte to FIFO_OUT and block until a byte arrives on FIFO_IN
+ *   FCV_DTYPE_UNKNOWN=1   readdir reports every entry of a relevant directory with d_type = DT_UNKNOWN, as file
+ *              systems without the filetype feature do (the caller then has to lstat each entry)
  *   FCV_NOLOCK_DIR=DIR   fcntl record locks (F_SETLK, F_SETLKW, F_OFD_SETLK) on files below DIR fail with
  *              EOPNOTSUPP, like on a file system without lock support
  *   FCV_NOATIME_EPERM=1   every open of a relevant file with O_NOATIME fails with EPERM, as it does for a
@@ -63,6 +65,7 @@ static atomic_long read_count = 0;
 static atomic_long openr_count = 0;
 static unsigned long jitter_seed = 0;
 static int noatime_eperm = 0;
+static int dtype_unknown = 0;
 static char nolock_dir[4096];
 static long kill_k = -1;
 static int kill_after = 0;
@@ -127,6 +130,8 @@ static void init(void) {
     if (l && *l) log_fd = syscall(SYS_openat, AT_FDCWD, l, O_WRONLY | O_CREAT | O_APPEND | O_CLOEXEC, 0644);
     const char *e = getenv("FCV_FICLONE_EMULATE");
     ficlone_emulate = e && *e == '1';
+    const char *du = getenv("FCV_DTYPE_UNKNOWN");
+    dtype_unknown = du && *du == '1';
     const char *nl = getenv("FCV_NOLOCK_DIR");
     if (nl && *nl) strncpy(nolock_dir, nl, sizeof(nolock_dir) - 1);
     const char *na = getenv("FCV_NOATIME_EPERM");
@@ -1021,6 +1026,7 @@ struct dirent64 *readdir64(DIR *d) {
     errno = 0;
     struct dirent64 *r = real_readdir64(d);
     int e = errno;
+    if (r && dtype_unknown) r->d_type = DT_UNKNOWN;
     after(ka, s, 'R', "readdir", fp, r ? r->d_name : NULL, r ? 0 : (e ? -1 : 1), e);
     errno = e;
     return r;
